@@ -12,6 +12,33 @@ pub fn make_config(root: &str, prefix: &str, timeout_ms: u64) -> Config {
     c.global.set_root_path(&Path::new(root.as_bytes()).expect("root path"));
     c.global.prefix = FileName::new(prefix.as_bytes()).expect("prefix");
     c.global.creation_timeout = Duration::from_millis(timeout_ms);
+    // own default QoS values: a creator that leaves a setting unset must end up with THESE values
+    // (and they must be distinguishable from the library's built-in defaults)
+    let d = &mut c.defaults;
+    d.publish_subscribe.max_publishers = 4;
+    d.publish_subscribe.max_subscribers = 5;
+    d.publish_subscribe.subscriber_max_buffer_size = 3;
+    d.publish_subscribe.publisher_history_size = 1;
+    d.publish_subscribe.subscriber_max_borrowed_samples = 2;
+    d.publish_subscribe.enable_safe_overflow = true;
+    d.publish_subscribe.max_nodes = 6;
+    d.event.max_notifiers = 4;
+    d.event.max_listeners = 5;
+    d.event.event_id_max_value = 31;
+    d.event.max_nodes = 6;
+    d.event.notifier_created_event = None;
+    d.event.notifier_dropped_event = Some(3);
+    d.event.notifier_dead_event = None;
+    d.event.deadline = None;
+    d.request_response.max_active_requests_per_client = 3;
+    d.request_response.max_loaned_requests = 2;
+    d.request_response.max_borrowed_responses_per_pending_response = 3;
+    d.request_response.max_response_buffer_size = 3;
+    d.request_response.max_servers = 2;
+    d.request_response.max_clients = 5;
+    d.request_response.max_nodes = 6;
+    d.blackboard.max_readers = 5;
+    d.blackboard.max_nodes = 6;
     c
 }
 
